@@ -43,7 +43,10 @@ EXTENDS ExecutorMon, TLC
 CONSTANTS Configs,       \* set of scenarios explored
           KeepHist,      \* TRUE: keep the observable history (behaviour dumps)
           GateAtomic,    \* TRUE: only behaviours the gate scheduler can force (see below)
-          NonIdemRetry   \* TRUE: non-idempotent queries MAY also be retried (the code as it is)
+          NonIdemRetry,  \* TRUE: non-idempotent queries MAY also be retried (the code as it is)
+          Defect_WaitResultsOnly \* TRUE: a WRONG variant TLC must refute (MC_Executor_stuck.cfg): after
+                         \* the last speculative execution was launched executeQuery waits for a
+                         \* result only and no longer for the context
 
 VARIABLES cfg,        \* the scenario
           ex,         \* per execution: pc and locals of its `do` loop
@@ -220,7 +223,12 @@ Recv ==
   /\ \/ ~SpecMode /\ ex[1].pc = "done" /\ ret' = ex[1].res
         /\ ex' = [ex EXCEPT ![1].pc = "fin"] /\ chan' = chan
      \/ SpecMode /\ chan # NoRes /\ ret' = chan /\ chan' = NoRes /\ ex' = ex
+     \* both selects of executeQuery (the one in speculate's loop and the final one) have the
+     \* context's arm.  run() offers its result by `select { results <- / <-ctx.Done() }` (Deliver),
+     \* so once the context is done every execution may drop its result: without this arm in the
+     \* final select executeQuery never returns (Defect_WaitResultsOnly violates Terminates).
      \/ SpecMode /\ cancelled # "no" /\ chan' = chan /\ ex' = ex
+        /\ (Defect_WaitResultsOnly => spawned < cfg.k + 1)
         /\ ret' = Res(0, 0, IF cancelled = "deadline" THEN "deadline" ELSE "canceled")
   /\ UNCHANGED <<cfg, ipos, cnt, started, spawned, launched, cancelled, returned, g, hist, last>>
 
